@@ -1,7 +1,7 @@
 /-
   Helper lemmas for C15 (model: BMV/Simbox.lean).  Part 1: decimal round trip, split/join, the
-  decoder of `Add` against `Rule.String`, list surgery.  Part 2 lemmas (compile / tick loop) are in
-  BMV/Proofs/SimboxSim.lean.
+  decoder of `Add` against `Rule.String`, list surgery.  Part 2: the cell store, injection, compilation of set rules, show/get
+  slots, one loop iteration.
 -/
 import BMV.Simbox
 namespace BMV.Simbox
@@ -458,3 +458,571 @@ theorem rebuild_id (b : Box) (hb : BoxWF b) : rebuild b = some b := by
   simpa using this
 
 end BMV.Simbox
+
+/-! ## Part 2 -/
+namespace BMV.Simbox.Sim
+open BMV.Simbox
+
+/-! ### the store -/
+
+theorem read_write (vm : Vm) (l l' : Loc) (v : Nat) :
+    read (write vm l' v) l = if l = l' then (read vm l).map (fun _ => v) else read vm l := by
+  induction vm with
+  | nil => simp [write, read]
+  | cons c rest ih =>
+    obtain ⟨cl, cv⟩ := c
+    simp only [write, List.map_cons] at ih ⊢
+    by_cases h1 : cl = l'
+    · subst h1
+      simp only [if_true, read]
+      by_cases h2 : cl = l
+      · subst h2; simp
+      · have : ¬ l = cl := fun e => h2 e.symm
+        simp only [h2, this, if_false]
+        rw [ih]; simp [this]
+    · simp only [h1, if_false, read]
+      by_cases h2 : cl = l
+      · subst h2
+        have : ¬ cl = l' := h1
+        simp [this]
+      · simp only [h2, if_false]; exact ih
+
+theorem read_write_ne (vm : Vm) {l l' : Loc} (v : Nat) (h : l ≠ l') : read (write vm l' v) l = read vm l := by
+  rw [read_write]; simp [h]
+
+theorem read_write_same (vm : Vm) (l : Loc) (v : Nat) : read (write vm l v) l = (read vm l).map (fun _ => v) := by
+  rw [read_write]; simp
+
+theorem ruleWrite_flag (vm : Vm) (l' : Loc) (v : Nat) (h : l'.isFlag = true) : ruleWrite vm l' v = vm := by
+  simp [ruleWrite, h]
+
+theorem ruleWrite_inReg (vm : Vm) (k v : Nat) :
+    ruleWrite vm (.inReg k) v = write (write vm (.inReg k) v) (.inValid k) 1 := by
+  simp [ruleWrite, Loc.isFlag]
+
+theorem ruleWrite_other (vm : Vm) (l' : Loc) (v : Nat) (h : l'.isFlag = false) (h2 : ∀ k, l' ≠ .inReg k) :
+    ruleWrite vm l' v = write vm l' v := by
+  cases l' with
+  | inReg k => exact absurd rfl (h2 k)
+  | _ => first | (simp [Loc.isFlag] at h; done) | simp [ruleWrite, Loc.isFlag]
+
+/-- a rule write to `l'` seen from a non-flag cell `l` -/
+theorem read_ruleWrite (vm : Vm) (l l' : Loc) (v : Nat) (hl : l.isFlag = false) :
+    read (ruleWrite vm l' v) l = if l = l' then (read vm l).map (fun _ => v) else read vm l := by
+  by_cases hf : l'.isFlag = true
+  · rw [ruleWrite_flag _ _ _ hf]
+    have : l ≠ l' := fun e => by rw [e, hf] at hl; cases hl
+    simp [this]
+  · have hf' : l'.isFlag = false := by cases h : l'.isFlag <;> simp_all
+    by_cases hr : ∃ k, l' = .inReg k
+    · obtain ⟨k, rfl⟩ := hr
+      rw [ruleWrite_inReg]
+      have : l ≠ .inValid k := fun e => by rw [e] at hl; simp [Loc.isFlag] at hl
+      rw [read_write_ne _ _ this, read_write]
+    · have : ∀ k, l' ≠ .inReg k := fun k e => hr ⟨k, e⟩
+      rw [ruleWrite_other _ _ _ hf' this, read_write]
+
+/-- ... and seen from the valid flag of input `k` -/
+theorem read_ruleWrite_valid (vm : Vm) (k : Nat) (l' : Loc) (v : Nat) :
+    read (ruleWrite vm l' v) (.inValid k)
+      = if l' = .inReg k then (read vm (.inValid k)).map (fun _ => 1) else read vm (.inValid k) := by
+  by_cases hf : l'.isFlag = true
+  · rw [ruleWrite_flag _ _ _ hf]
+    have : l' ≠ .inReg k := fun e => by rw [e] at hf; simp [Loc.isFlag] at hf
+    simp [this]
+  · have hf' : l'.isFlag = false := by cases h : l'.isFlag <;> simp_all
+    by_cases hr : ∃ j, l' = .inReg j
+    · obtain ⟨j, rfl⟩ := hr
+      rw [ruleWrite_inReg]
+      by_cases hjk : j = k
+      · subst hjk
+        rw [read_write_same, read_write_ne _ _ (by simp)]; simp
+      · have h1 : Loc.inValid k ≠ Loc.inValid j := fun e => hjk (by injection e with e; exact e.symm)
+        have h2 : Loc.inReg j ≠ Loc.inReg k := fun e => hjk (by injection e)
+        rw [read_write_ne _ _ h1, read_write_ne _ _ (by simp)]; simp [h2]
+    · have h3 : ∀ j, l' ≠ .inReg j := fun j e => hr ⟨j, e⟩
+      rw [ruleWrite_other _ _ _ hf' h3]
+      have : Loc.inValid k ≠ l' := fun e => by rw [← e] at hf'; simp [Loc.isFlag] at hf'
+      rw [read_write_ne _ _ this]; simp [h3 k]
+
+theorem applyActs_cons (vm : Vm) (a : SetAct) (as : List SetAct) :
+    applyActs vm (a :: as) = applyActs (ruleWrite vm a.loc a.val) as := rfl
+
+theorem applyActs_append (vm : Vm) (as bs : List SetAct) :
+    applyActs vm (as ++ bs) = applyActs (applyActs vm as) bs := by
+  simp [applyActs, List.foldl_append]
+
+/-- after a sequence of rule writes a non-flag cell holds the value of the *last* write that
+    names it, and is untouched if none does -/
+theorem read_applyActs (as : List SetAct) (vm : Vm) (l : Loc) (hl : l.isFlag = false) :
+    read (applyActs vm as) l =
+      match as.reverse.find? (fun a => a.loc = l) with
+      | some a => (read vm l).map (fun _ => a.val)
+      | none => read vm l := by
+  induction as generalizing vm with
+  | nil => simp [applyActs]
+  | cons a as ih =>
+    rw [applyActs_cons, ih, read_ruleWrite _ _ _ _ hl]
+    simp only [List.reverse_cons, List.find?_append, List.find?_cons, List.find?_nil]
+    cases hf : as.reverse.find? (fun a => a.loc = l) with
+    | some b =>
+      simp only [Option.some_or]
+      split <;> (cases read vm l <;> rfl)
+    | none =>
+      simp only [Option.none_or]
+      by_cases h : a.loc = l
+      · have : l = a.loc := h.symm
+        simp [h]
+      · have : ¬ l = a.loc := fun e => h e.symm
+        simp [h, this]
+
+theorem read_applyActs_valid (as : List SetAct) (vm : Vm) (k : Nat) :
+    read (applyActs vm as) (.inValid k) =
+      if as.any (fun a => a.loc = .inReg k) then (read vm (.inValid k)).map (fun _ => 1)
+      else read vm (.inValid k) := by
+  induction as generalizing vm with
+  | nil => simp [applyActs]
+  | cons a as ih =>
+    rw [applyActs_cons, ih, read_ruleWrite_valid]
+    by_cases h : a.loc = .inReg k
+    · simp only [h, if_true, List.any_cons, decide_true, Bool.true_or]
+      split <;> (cases read vm (.inValid k) <;> rfl)
+    · simp [h]
+
+theorem read_clearValid (n : Nat) (vm : Vm) (l : Loc) (hl : ∀ k, l ≠ .inValid k) :
+    read (clearValid n vm) l = read vm l := by
+  unfold clearValid
+  induction (List.range n) generalizing vm with
+  | nil => rfl
+  | cons k ks ih =>
+    simp only [List.foldl_cons]
+    rw [ih]
+    split
+    · exact read_write_ne _ _ (hl k)
+    · rfl
+
+theorem read_clearValid_nonflag (n : Nat) (vm : Vm) (l : Loc) (hl : l.isFlag = false) :
+    read (clearValid n vm) l = read vm l :=
+  read_clearValid n vm l (fun k e => by rw [e] at hl; simp [Loc.isFlag] at hl)
+
+/-! ### which actions fire -/
+
+theorem mem_insertByTick (a b : SetAct) (l : List SetAct) : b ∈ insertByTick a l ↔ b = a ∨ b ∈ l := by
+  induction l with
+  | nil => simp [insertByTick]
+  | cons c cs ih =>
+    simp only [insertByTick]
+    split
+    · simp
+    · simp only [List.mem_cons, ih]
+      constructor
+      · rintro (h | h | h) <;> simp [h]
+      · rintro (h | h | h) <;> simp [h]
+
+theorem mem_sortByTick (b : SetAct) (l : List SetAct) : b ∈ sortByTick l ↔ b ∈ l := by
+  induction l with
+  | nil => simp [sortByTick]
+  | cons c cs ih => simp [sortByTick, mem_insertByTick, ih]
+
+theorem mem_firing (acts : List SetAct) (t : Nat) (a : SetAct) :
+    a ∈ firing acts t ↔ a ∈ acts ∧ a.fires t = true := by
+  unfold firing
+  simp only [List.mem_append, List.mem_filter, mem_sortByTick, Bool.and_eq_true, Bool.not_eq_true']
+  constructor
+  · rintro (⟨h1, _, h3⟩ | ⟨h1, _, h3⟩) <;> exact ⟨h1, h3⟩
+  · rintro ⟨h1, h3⟩
+    cases hp : a.periodic
+    · exact .inl ⟨h1, rfl, h3⟩
+    · exact .inr ⟨h1, rfl, h3⟩
+
+theorem fires_abs (a : SetAct) (t : Nat) (h : a.periodic = false) : a.fires t = true ↔ a.tick = t := by
+  simp [SetAct.fires, h]
+
+theorem fires_periodic (a : SetAct) (t : Nat) (h : a.periodic = true) :
+    a.fires t = true ↔ a.tick ≠ 0 ∧ t % a.tick = 0 := by
+  simp [SetAct.fires, h]
+
+/-- the state handed to the machine step, on a non-flag cell -/
+theorem read_injected (sh : Shape) (acts : List SetAct) (t : Nat) (vm : Vm) (l : Loc) (hl : l.isFlag = false) :
+    read (injected sh acts t vm) l =
+      match (firing acts t).reverse.find? (fun a => a.loc = l) with
+      | some a => (read vm l).map (fun _ => a.val)
+      | none => read vm l := by
+  unfold injected
+  rw [read_applyActs _ _ _ hl, read_clearValid_nonflag _ _ _ hl]
+
+
+theorem read_injected_valid (sh : Shape) (acts : List SetAct) (t : Nat) (vm : Vm) (k : Nat) :
+    read (injected sh acts t vm) (.inValid k) =
+      if (firing acts t).any (fun a => a.loc = .inReg k)
+      then (read (clearValid sh.nIn vm) (.inValid k)).map (fun _ => 1)
+      else read (clearValid sh.nIn vm) (.inValid k) := by
+  unfold injected
+  rw [read_applyActs_valid]
+
+/-! ### suspended rules -/
+
+def active (b : Box) : Box := b.filter (fun r => !r.suspended)
+
+theorem compileSets_active (sh : Shape) (b : Box) : compileSets sh b = compileSets sh (active b) := by
+  induction b with
+  | nil => rfl
+  | cons r rs ih =>
+    cases hs : r.suspended with
+    | true => simp only [compileSets, hs, if_true, active, List.filter_cons, Bool.not_true, Bool.false_eq_true, if_false]; exact ih
+    | false =>
+      simp only [active, List.filter_cons, hs, Bool.not_false, if_true]
+      simp only [compileSets, hs, Bool.false_eq_true, if_false]
+      unfold active at ih
+      rw [ih]
+
+theorem compileConf_active (b : Box) (c : Conf) : compileConf b c = compileConf (active b) c := by
+  induction b generalizing c with
+  | nil => rfl
+  | cons r rs ih =>
+    cases hs : r.suspended with
+    | true => simp only [compileConf, hs, if_true, active, List.filter_cons, Bool.not_true, Bool.false_eq_true, if_false]; exact ih c
+    | false =>
+      simp only [active, List.filter_cons, hs, Bool.not_false, if_true]
+      simp only [compileConf, hs, Bool.false_eq_true, if_false]
+      unfold active at ih
+      split <;> simp only [ih]
+
+theorem compileReport_active (sh : Shape) (bn : List String) (act : Action) (b : Box) (rp : Report) :
+    compileReport sh bn act b rp = compileReport sh bn act (active b) rp := by
+  induction b generalizing rp with
+  | nil => rfl
+  | cons r rs ih =>
+    cases hs : r.suspended with
+    | true =>
+      simp only [active, List.filter_cons, hs, Bool.not_true, Bool.false_eq_true, if_false]
+      rw [compileReport]; simp only [hs, if_true]; exact ih rp
+    | false =>
+      simp only [active, List.filter_cons, hs, Bool.not_false, if_true]
+      unfold active at ih
+      rw [compileReport, compileReport]
+      simp only [hs, Bool.false_eq_true, if_false]
+      repeat' split
+      all_goals first | rfl | exact ih _
+
+theorem compile_active (sh : Shape) (bn : List String) (b : Box) : compile sh bn b = compile sh bn (active b) := by
+  unfold compile
+  rw [compileSets_active, compileReport_active sh bn .show, compileReport_active sh bn .get, compileConf_active]
+
+/-- what `compileSets` produces, rule by rule -/
+def setActOf (sh : Shape) (r : Rule) : Option SetAct :=
+  match resolve sh r.object, importNumber r.extra, wbits sh.rsize with
+  | some l, some n, some w => some ⟨r.timec = .rel, r.tick, l, n % 2 ^ w⟩
+  | _, _, _ => none
+
+def isSetRule (r : Rule) : Prop := r.suspended = false ∧ r.action = .set ∧ (r.timec = .abs ∨ r.timec = .rel)
+
+instance (r : Rule) : Decidable (isSetRule r) := by unfold isSetRule; exact inferInstance
+
+theorem compileSets_mem (sh : Shape) (b : Box) (acts : List SetAct) (h : compileSets sh b = .ok acts) (a : SetAct) :
+    a ∈ acts ↔ ∃ r ∈ b, isSetRule r ∧ setActOf sh r = some a := by
+  induction b generalizing acts with
+  | nil =>
+    simp only [compileSets] at h
+    injection h with h; subst h; simp
+  | cons r rs ih =>
+    simp only [compileSets] at h
+    split at h
+    · rename_i hs
+      rw [ih acts h]
+      constructor
+      · rintro ⟨x, hx, hh⟩; exact ⟨x, by simp [hx], hh⟩
+      · rintro ⟨x, hx, hh⟩
+        simp only [List.mem_cons] at hx
+        rcases hx with rfl | hx
+        · exact absurd hs (by simp [hh.1.1])
+        · exact ⟨x, hx, hh⟩
+    · rename_i hs
+      split at h
+      · rename_i hset
+        split at h
+        · rename_i l n w h1 h2 h3
+          split at h
+          · rename_i acts' hrec
+            injection h with h; subst h
+            have hso : setActOf sh r = some ⟨r.timec = .rel, r.tick, l, n % 2 ^ w⟩ := by
+              simp [setActOf, h1, h2, h3]
+            simp only [List.mem_cons, ih acts' hrec]
+            constructor
+            · rintro (rfl | ⟨x, hx, hh⟩)
+              · exact ⟨r, by simp, ⟨by simpa using hs, hset.1, hset.2⟩, hso⟩
+              · exact ⟨x, by simp [hx], hh⟩
+            · rintro ⟨x, hx, hh⟩
+              rcases hx with rfl | hx
+              · left; rw [hso] at hh; injection hh.2 with e; exact e.symm
+              · exact .inr ⟨x, hx, hh⟩
+          · cases h
+        · cases h
+        · cases h
+        · cases h
+      · rename_i hset
+        rw [ih acts h]
+        constructor
+        · rintro ⟨x, hx, hh⟩; exact ⟨x, by simp [hx], hh⟩
+        · rintro ⟨x, hx, hh⟩
+          simp only [List.mem_cons] at hx
+          rcases hx with rfl | hx
+          · exact absurd ⟨hh.1.2.1, hh.1.2.2⟩ hset
+          · exact ⟨x, hx, hh⟩
+
+
+/-! ### show / get -/
+
+theorem mem_firedSlots (rp : Report) (t : Nat) (old new : Vm) (sd ev : Bool) (i : Nat) :
+    i ∈ firedSlots rp t old new sd ev ↔
+      i < rp.slots.length ∧ ∃ w ∈ rp.watches, w.slot = i ∧ w.fires t old new sd ev = true := by
+  simp only [firedSlots, List.mem_filter, List.mem_range, List.any_eq_true, Bool.and_eq_true, beq_iff_eq]
+
+theorem fires_at (i t' t : Nat) (old new : Vm) (sd ev : Bool) :
+    (Watch.mk i (.at t')).fires t old new sd ev = true ↔ t' = t := by
+  simp [Watch.fires]
+
+theorem fires_every (i p t : Nat) (old new : Vm) (sd ev : Bool) :
+    (Watch.mk i (.every p)).fires t old new sd ev = true ↔ p ≠ 0 ∧ t % p = 0 := by
+  simp [Watch.fires]
+
+theorem fires_onValid (i : Nat) (f : Loc) (t : Nat) (old new : Vm) (sd ev : Bool) :
+    (Watch.mk i (.onValid f)).fires t old new sd ev = true ↔ ev = true ∧ readD new f = 1 ∧ readD old f ≠ 1 := by
+  simp [Watch.fires, and_assoc]
+
+theorem fires_onExit (i t : Nat) (old new : Vm) (sd ev : Bool) :
+    (Watch.mk i .onExit).fires t old new sd ev = true ↔ ev = true ∧ sd = true := by
+  simp [Watch.fires]
+
+theorem slotValues_sound (rp : Report) (vm : Vm) (idxs : List Nat) (i : Nat) (ty : String) (v : Nat)
+    (h : (i, ty, v) ∈ (slotValues rp vm idxs).1) :
+    i ∈ idxs ∧ ∃ s, rp.slots[i]? = some s ∧ s.ty = ty ∧ v = readD vm s.loc ∧ s.loc.isFlag = false := by
+  induction idxs with
+  | nil => simp [slotValues] at h
+  | cons j js ih =>
+    simp only [slotValues] at h
+    split at h
+    · rename_i s hs
+      split at h
+      · simp at h
+      · rename_i hflag
+        simp only [List.mem_cons, Prod.mk.injEq] at h
+        rcases h with ⟨rfl, rfl, rfl⟩ | h
+        · exact ⟨by simp, s, hs, rfl, rfl, by simpa using hflag⟩
+        · obtain ⟨h1, h2⟩ := ih h
+          exact ⟨by simp [h1], h2⟩
+    · obtain ⟨h1, h2⟩ := ih h
+      exact ⟨by simp [h1], h2⟩
+
+theorem slotValues_complete (rp : Report) (vm : Vm) (idxs : List Nat) (hok : (slotValues rp vm idxs).2 = false)
+    (i : Nat) (hi : i ∈ idxs) (s : Slot) (hs : rp.slots[i]? = some s) :
+    (i, s.ty, readD vm s.loc) ∈ (slotValues rp vm idxs).1 := by
+  induction idxs with
+  | nil => cases hi
+  | cons j js ih =>
+    simp only [slotValues] at hok ⊢
+    split
+    · rename_i s' hs'
+      split
+      · rename_i hflag; simp [hs', hflag] at hok
+      · rename_i hflag
+        simp only [hs', hflag, Bool.false_eq_true, if_false] at hok
+        simp only [List.mem_cons] at hi ⊢
+        rcases hi with rfl | hi
+        · rw [hs] at hs'; injection hs' with e; subst e; exact .inl rfl
+        · exact .inr (ih hok hi)
+    · rename_i hnone
+      simp only [hnone] at hok
+      simp only [List.mem_cons] at hi
+      rcases hi with rfl | hi
+      · rw [hs] at hnone; cases hnone
+      · exact ih hok hi
+
+/-! ### one iteration of the loop -/
+
+theorem iteration_done (step : Vm → Vm) (c : Compiled) (stopOn : Option Nat) (report : Bool) (s : LoopSt) (t : Nat)
+    (h : s.done = true) : iteration step c stopOn report s t = s := by
+  simp [iteration, h]
+
+/-- the record an iteration appends -/
+theorem iteration_record (step : Vm → Vm) (c : Compiled) (stopOn : Option Nat) (report : Bool) (s : LoopSt) (t : Nat)
+    (h : s.done = false) :
+    ∃ r, (iteration step c stopOn report s t).trace = s.trace ++ [r] ∧ r.tick = t ∧
+      r.shutdown = isShutdown stopOn s.vm ∧
+      (r.shutdown = false → r.pre = injected c.sh c.acts t s.vm ∧ r.stepped = step r.pre ∧
+          r.post = ackOutputs c.sh.nOut r.stepped) ∧
+      (r.shutdown = true → r.pre = s.vm ∧ r.post = s.vm) ∧
+      (r.fatal = 0 → r.shown = (slotValues c.shows r.post (firedSlots c.shows t s.old r.post r.shutdown true)).1 ∧
+          (slotValues c.shows r.post (firedSlots c.shows t s.old r.post r.shutdown true)).2 = false) := by
+  simp only [iteration, h, Bool.false_eq_true, if_false]
+  cases hS : isShutdown stopOn s.vm
+  all_goals
+    simp only [Bool.false_eq_true, if_false, if_true]
+    split
+    · exact ⟨_, rfl, rfl, rfl, by simp, by simp, by simp⟩
+    · split
+      · exact ⟨_, rfl, rfl, rfl, by simp, by simp, by simp⟩
+      · rename_i hb
+        refine ⟨_, rfl, rfl, rfl, by simp, by simp, ?_⟩
+        intro _
+        exact ⟨rfl, by simpa using hb⟩
+
+end BMV.Simbox.Sim
+
+/-! ## Part 2 — compiled reports -/
+namespace BMV.Simbox.Sim
+open BMV.Simbox
+
+structure Ext (rp rp' : Report) : Prop where
+  slots : ∃ ex, rp'.slots = rp.slots ++ ex
+  watches : ∀ w ∈ rp.watches, w ∈ rp'.watches
+
+theorem Ext.refl (rp : Report) : Ext rp rp := ⟨⟨[], by simp⟩, fun _ h => h⟩
+
+theorem Ext.trans {a b c : Report} (h1 : Ext a b) (h2 : Ext b c) : Ext a c := by
+  obtain ⟨⟨e1, h1s⟩, h1w⟩ := h1
+  obtain ⟨⟨e2, h2s⟩, h2w⟩ := h2
+  exact ⟨⟨e1 ++ e2, by rw [h2s, h1s, List.append_assoc]⟩, fun w h => h2w w (h1w w h)⟩
+
+theorem Ext.slot {rp rp' : Report} (h : Ext rp rp') {i : Nat} {s : Slot} (hs : rp.slots[i]? = some s) :
+    rp'.slots[i]? = some s := by
+  obtain ⟨⟨e, he⟩, _⟩ := h
+  rw [he]
+  have hi : i < rp.slots.length := by
+    rcases Nat.lt_or_ge i rp.slots.length with h | h
+    · exact h
+    · rw [List.getElem?_eq_none h] at hs; cases hs
+  rw [List.getElem?_append_left hi]; exact hs
+
+theorem addSlot_ext (rp : Report) (l : Loc) (e n : String) : Ext rp (addSlot rp l e n).1 := by
+  unfold addSlot
+  split
+  · exact Ext.refl rp
+  · exact ⟨⟨[⟨l, typeOf e, n⟩], rfl⟩, fun _ h => h⟩
+
+theorem addSlot_slot (rp : Report) (l : Loc) (e n : String) :
+    ∃ s, (addSlot rp l e n).1.slots[(addSlot rp l e n).2]? = some s ∧ s.loc = l := by
+  unfold addSlot
+  split
+  · rename_i i hi
+    unfold slotOf at hi
+    split at hi
+    · cases hi
+    · obtain ⟨hlt, hp, _⟩ := List.findIdx?_eq_some_iff_getElem.mp hi
+      refine ⟨rp.slots[i], by simp [List.getElem?_eq_getElem hlt], by simpa using hp⟩
+  · exact ⟨⟨l, typeOf e, n⟩, by simp, rfl⟩
+
+theorem addWatch_ext (rp : Report) (l : Loc) (e n : String) (w : When) : Ext rp (addWatch rp l e n w) := by
+  unfold addWatch
+  have h := addSlot_ext rp l e n
+  obtain ⟨hs, hw⟩ := h
+  exact ⟨hs, fun x hx => by simp [hw x hx]⟩
+
+theorem addWatch_spec (rp : Report) (l : Loc) (e n : String) (w : When) :
+    ∃ i s, (addWatch rp l e n w).slots[i]? = some s ∧ s.loc = l ∧ ⟨i, w⟩ ∈ (addWatch rp l e n w).watches := by
+  obtain ⟨s, hs, hl⟩ := addSlot_slot rp l e n
+  exact ⟨(addSlot rp l e n).2, s, by simpa [addWatch] using hs, hl, by simp [addWatch]⟩
+
+theorem addObjects_ext (sh : Shape) (objs : List String) (e : String) (rp : Report) :
+    Ext rp (addObjects sh rp objs e) := by
+  unfold addObjects
+  induction objs generalizing rp with
+  | nil => exact Ext.refl rp
+  | cons o os ih =>
+    simp only [List.foldl_cons]
+    split
+    · exact Ext.trans (addSlot_ext rp _ e o) (ih _)
+    · exact ih rp
+
+/-- unfolding one rule: the rest is compiled from an extension of the report so far -/
+theorem compileReport_cons (sh : Shape) (bn : List String) (act : Action) (r : Rule) (rs : Box) (rp rp' : Report)
+    (h : compileReport sh bn act (r :: rs) rp = .ok rp') :
+    ∃ rp1, Ext rp rp1 ∧ compileReport sh bn act rs rp1 = .ok rp' := by
+  rw [compileReport] at h
+  dsimp only at h
+  repeat' split at h
+  all_goals first
+    | (cases h; done)
+    | exact ⟨_, Ext.refl rp, h⟩
+    | exact ⟨_, addObjects_ext sh _ _ rp, h⟩
+    | exact ⟨_, addWatch_ext rp _ _ _ _, h⟩
+    | exact ⟨_, addSlot_ext rp _ _ _, h⟩
+
+theorem compileReport_ext (sh : Shape) (bn : List String) (act : Action) (b : Box) (rp rp' : Report)
+    (h : compileReport sh bn act b rp = .ok rp') : Ext rp rp' := by
+  induction b generalizing rp with
+  | nil => simp only [compileReport] at h; injection h with h; subst h; exact Ext.refl rp
+  | cons r rs ih =>
+    obtain ⟨rp1, h1, h2⟩ := compileReport_cons sh bn act r rs rp rp' h
+    exact Ext.trans h1 (ih rp1 h2)
+
+/-- an active timed show/get rule whose object resolves yields a slot for the element and a watch
+    on that slot with the rule's tick / period -/
+theorem compileReport_timed (sh : Shape) (bn : List String) (act : Action)
+    (b : Box) (rp rp' : Report)
+    (h : compileReport sh bn act b rp = .ok rp') (r : Rule) (hr : r ∈ b) (hs : r.suspended = false)
+    (ha : r.action = act) (htc : r.timec = .abs ∨ r.timec = .rel) (l : Loc) (hl : resolve sh r.object = some l) :
+    ∃ i s, rp'.slots[i]? = some s ∧ s.loc = l ∧
+      ⟨i, if r.timec = .abs then .at r.tick else .every r.tick⟩ ∈ rp'.watches := by
+  induction b generalizing rp with
+  | nil => cases hr
+  | cons x xs ih =>
+    simp only [List.mem_cons] at hr
+    rcases hr with rfl | hr
+    · -- the rule is at the head
+      rw [compileReport] at h
+      rcases htc with h1 | h1
+      all_goals
+        simp only [hs, h1, ha, hl, reduceCtorEq, false_and, if_false, if_true, Bool.false_eq_true] at h
+        split at h
+        · cases h
+        · have hext := compileReport_ext sh bn act xs _ rp' h
+          obtain ⟨i, s, h1s, h2s, h3s⟩ := addWatch_spec rp l r.extra r.object
+            (if r.timec = Timec.abs then When.at r.tick else When.every r.tick)
+          simp only [h1, reduceCtorEq, if_false, if_true] at h3s h1s hext ⊢
+          exact ⟨i, s, hext.slot h1s, h2s, hext.watches _ h3s⟩
+    · obtain ⟨rp1, _, h2⟩ := compileReport_cons sh bn act x xs rp rp' h
+      exact ih rp1 h2 hr
+
+
+/-- an active on-exit show/get rule whose object resolves yields an on-exit watch on its slot -/
+theorem compileReport_onExit (sh : Shape) (bn : List String) (act : Action)
+    (b : Box) (rp rp' : Report)
+    (h : compileReport sh bn act b rp = .ok rp') (r : Rule) (hr : r ∈ b) (hs : r.suspended = false)
+    (ha : r.action = act) (htc : r.timec = .onExit) (l : Loc) (hl : resolve sh r.object = some l) :
+    ∃ i s, rp'.slots[i]? = some s ∧ s.loc = l ∧ ⟨i, .onExit⟩ ∈ rp'.watches := by
+  induction b generalizing rp with
+  | nil => cases hr
+  | cons x xs ih =>
+    simp only [List.mem_cons] at hr
+    rcases hr with rfl | hr
+    · rw [compileReport] at h
+      simp only [hs, htc, ha, hl, reduceCtorEq, false_and, if_false, if_true, Bool.false_eq_true] at h
+      have hext := compileReport_ext sh bn act xs _ rp' h
+      obtain ⟨i, s, h1s, h2s, h3s⟩ := addWatch_spec rp l r.extra r.object .onExit
+      exact ⟨i, s, hext.slot h1s, h2s, hext.watches _ h3s⟩
+    · obtain ⟨rp1, _, h2⟩ := compileReport_cons sh bn act x xs rp rp' h
+      exact ih rp1 h2 hr
+
+/-- an active on-valid show/get rule whose object and whose valid flag resolve yields an on-valid
+    watch (on that flag) on its slot -/
+theorem compileReport_onValid (sh : Shape) (bn : List String) (act : Action)
+    (b : Box) (rp rp' : Report)
+    (h : compileReport sh bn act b rp = .ok rp') (r : Rule) (hr : r ∈ b) (hs : r.suspended = false)
+    (ha : r.action = act) (htc : r.timec = .onValid) (l f : Loc) (hl : resolve sh r.object = some l)
+    (hf : validFlagOf sh r.object = some f) :
+    ∃ i s, rp'.slots[i]? = some s ∧ s.loc = l ∧ ⟨i, .onValid f⟩ ∈ rp'.watches := by
+  induction b generalizing rp with
+  | nil => cases hr
+  | cons x xs ih =>
+    simp only [List.mem_cons] at hr
+    rcases hr with rfl | hr
+    · rw [compileReport] at h
+      simp only [hs, htc, ha, hl, hf, reduceCtorEq, false_and, if_false, if_true, Bool.false_eq_true] at h
+      have hext := compileReport_ext sh bn act xs _ rp' h
+      obtain ⟨i, s, h1s, h2s, h3s⟩ := addWatch_spec rp l r.extra r.object (.onValid f)
+      exact ⟨i, s, hext.slot h1s, h2s, hext.watches _ h3s⟩
+    · obtain ⟨rp1, _, h2⟩ := compileReport_cons sh bn act x xs rp rp' h
+      exact ih rp1 h2 hr
+
+end BMV.Simbox.Sim
